@@ -64,6 +64,9 @@ impl IDLArgs {
         }
     }
     pub fn annotate_types(self, from_parser: bool, env: &TypeEnv, types: &[Type]) -> Result<Self> {
+        if self.args.len() > types.len() {
+            return Err(Error::msg("wrong number of argument values"));
+        }
         let mut args = Vec::new();
         for (v, ty) in self.args.iter().zip(types.iter()) {
             let v = v.annotate_type(from_parser, env, ty)?;
